@@ -148,3 +148,31 @@ def Front.run {γ : Type} (f : Front) : List (Arrival γ) → List (Elem (Bin γ
       ++ Front.run (if l then f.stepElem (β := γ) true r Bin.left e else f.stepElem (α := γ) false r Bin.right e).1 as
 
 end Noir.Zip
+
+/-! ### `merge` (src/operator/merge.rs:41-57): a binary start + `filter_map` dropping the end markers -/
+namespace Noir.Merge
+open Noir.Join
+
+/-- the stream a binary start (no cached side) hands to `merge`'s `filter_map` for an arrival
+    sequence `(isLeft, element)` — `BinStart.stepElem` of `Model/HashJoin.lean` -/
+def front {γ : Type} (s : BinStart.State) : List (Bool × Elem γ) → List (Elem (Bin γ γ))
+  | [] => []
+  | (l, e) :: as =>
+    (if l then BinStart.stepElem (β := γ) s true Bin.left e else BinStart.stepElem (α := γ) s false Bin.right e).2
+      ++ front (if l then BinStart.stepElem (β := γ) s true Bin.left e else BinStart.stepElem (α := γ) s false Bin.right e).1 as
+
+/-- the closure of `filter_map` (merge.rs:52-56) -/
+def unwrap {γ : Type} : Bin γ γ → Option γ
+  | .left a => some a
+  | .right a => some a
+  | _ => none
+
+/-- the payloads `merge` emits, in order -/
+def mergeVals {γ : Type} (out : List (Elem (Bin γ γ))) : List γ :=
+  out.filterMap fun e => e.value.bind unwrap
+
+/-- the payloads one side sent, in order -/
+def sideVals {γ : Type} (left : Bool) (arr : List (Bool × Elem γ)) : List γ :=
+  (arr.filter fun p => p.1 == left).filterMap fun p => p.2.value
+
+end Noir.Merge
